@@ -29,20 +29,22 @@ def cases(draw):
     n = draw(st.integers(1, 8))
     msgs = []
     for i in range(n):
-        kind = draw(st.sampled_from(["req", "req", "ans", "dwr"]))
+        kind = draw(st.sampled_from(["req", "req", "req", "ans", "ans", "dwr", "dwr", "bare"]))        # bare: a header-only message (no AVPs)
         size = draw(st.sampled_from([0, 0, 1, 3, 17, 100, 1000, 5800, 5800, 65400, 65536, 70000, 140000]))
         msgs.append({"kind": kind, "size": size})
     if not any(m["kind"] != "dwr" for m in msgs):
         msgs[0]["kind"] = "req"
     seg = draw(st.sampled_from(["one", "aligned", "in-header", "header-prefix", "header-prefix", "in-avp-header", "bytewise", "random", "random",
                                 "coalesce-pairs"]))
-    hp = draw(st.integers(1, 3))
+    hp = draw(st.sampled_from([1, 2, 3, 3, 19, 20, 21, 30]))
     cuts = draw(st.lists(st.integers(1, 40000), max_size=12)) if seg == "random" else []
     sched = draw(conc.schedules(300))
     return {"role": draw(st.sampled_from(["client", "server"])), "msgs": msgs, "seg": seg, "cuts": sorted(set(cuts)),
             "hp": hp, "consumers": draw(st.sampled_from([1, 1, 1, 2])), "sched": sched, "lines": draw(st.booleans()) if sched else False,
             "gen2": draw(st.sampled_from([None, None, None, "local-close", "peer-fin", "peer-fin-mid-message"])),
-            "consumers_first": draw(st.booleans()), "holds": draw(conc.holds())}
+            # virtual seconds between the arrival of consecutive segments (cycled); empty = everything is readable at once
+            "gaps": draw(st.sampled_from([[], [], [0.004], [0.02], [0.011], [0.03, 0.004], [0.1, 0.004], [0.011, 0.0, 0.3]])),
+            "consumers_first": draw(st.booleans()), "holds": draw(conc.holds(bias="consumer"))}
 
 
 def build_stream(case):
@@ -54,6 +56,8 @@ def build_stream(case):
             parts.append(("app", app_request(hbh, e2e, dest_realm=LOCAL["realm"], payload=pay)))
         elif m["kind"] == "ans":
             parts.append(("app", app_answer(hbh, e2e, payload=pay)))
+        elif m["kind"] == "bare":
+            parts.append(("app", rc.enc_msg(1, 0x40, 316, 16777251, hbh, e2e, [])))
         else:
             parts.append(("dwr", peer_dwr(hbh, e2e)))
     return parts
@@ -74,7 +78,7 @@ def segmentation(case, parts):
     elif seg == "coalesce-pairs":
         cuts = bounds[1:-1:2]
     elif seg == "header-prefix":
-        # whole message(s) followed by only the first 1..3 bytes of the next header in the same read
+        # whole message(s) followed by only the first bytes (1..30) of the next message in the same read
         cuts = [b + case.get("hp", 1) for b in bounds[:-1]]
     elif seg == "in-header":
         cuts = sorted(set([b - len(p) + 7 for b, (_, p) in zip(bounds, parts)] + [b - len(p) + 19 for b, (_, p) in zip(bounds, parts)]))
@@ -120,11 +124,24 @@ def run_one(case):
         w.sched.choices = list(case["sched"])
         w.sched.choice_i = 0
         conc.apply_holds(w, case.get("holds"))
-        w.feed(data, cuts)
+        if case.get("gaps"):
+            segs = [data[a:b] for a, b in zip([0] + cuts, cuts + [len(data)])]
+
+            def peer_writer():
+                for k, sg in enumerate(segs):
+                    if k:
+                        w.sched.point("sleep", pred=lambda: False, timeout=case["gaps"][(k - 1) % len(case["gaps"])])
+                    w.feed(sg)
+            w.call("peer-writer", peer_writer)
+        else:
+            w.feed(data, cuts)
         if not case["consumers_first"]:
             start_consumers()
         goal = lambda: len(got) >= len(want) and len([m for m in w._safe_sent() if m["cmd"] == 280]) >= len(want_dwr)
-        r = w.run(goal, 12.0)
+        # the peer needs sum(gaps) virtual seconds just to write the data; the delivery bound counts from there
+        n_seg = len(cuts) + 1
+        spread = sum(case["gaps"][(k - 1) % len(case["gaps"])] for k in range(1, n_seg)) if case.get("gaps") else 0.0
+        r = w.run(goal, 12.0 + spread)
         # let any duplicate surface
         w.run(lambda: False, 1.5)
         info.update(steps=w.sched.steps, switches=w.sched.switches, line_switches=w.sched.line_switches, result=r,
@@ -200,6 +217,8 @@ def _collect(shard, seed, n):
                 f.add("delay-between-source-lines")
         if case.get("gen2"):
             f.add("second-connection-of-the-object")
+        if case.get("gaps"):
+            f.add("segments-arrive-spaced-in-time")
         nt = bool(f & {"message-spans-reads", "messages-share-a-read"}) and "prefix-with-switch" in f
         col.record(case, vs, nontrivial=nt, classes=sorted(f))
         col.extra["scheduling_steps"] = col.extra.get("scheduling_steps", 0) + info.get("steps", 0)
